@@ -12,7 +12,7 @@ from __future__ import annotations
 import z3
 
 from .common import *
-from .qcow2 import FILE, GeomModel, _case_name, _cases, bits
+from .qcow2 import FILE, GeomModel, _case_name, _cases, bits, cq
 
 
 def fresh_bytes_(name):
@@ -156,6 +156,7 @@ def contracts(repo):
         elif cb == 14 or os.environ.get("VERIF_TIER_EFFECTIVE", "quick") == "thorough":
             out.append(_count_contiguous_ext(cb))  # about 40 s of VC generation per geometry: one geometry in the quick tier, all 8 in the thorough tier
     out.append(_compression(repo))
+    out += [_decompress(0, "zlib"), _decompress(1, "zstd"), _decompress(7, "unknown-type")]
     for i in range(32):
         out += _ext_bits(i)
     if os.environ.get("VERIF_TIER_EFFECTIVE", "quick") == "thorough" or os.environ.get("VERIF_EXPERIMENT"):
@@ -527,6 +528,95 @@ def _geometry(repo, cb, ext, free=(), version=3):
                       requires=lambda m: m.hyps, post=post, allow_any_exception=True, mode="geometry", case=_case_name(cb, ext) + (",v2" if version == 2 else ""),
                       note="gate mode with cluster_bits / extended-L2 flag pinned to the case: the class invariant the read-path contracts assume (RunModel / ReadModel fields)"
                            + ("; version 2: the 32 bytes after the 72-byte header (where version 3 keeps its feature bits, refcount order and header length) are arbitrary and must not influence the geometry" if version == 2 else ""))
+
+
+# ------------------------------------------------------------------------------------------------ QCow2._decompress
+class DecompressModel(Model):
+    """`self` of QCow2._decompress for one compression type (case parameter); cluster size symbolic.  INF is the complete inflation of
+    `buf` (assumed to exist: A3 zlib / zstd); the contract is about how much of it is produced and that nothing else is returned."""
+
+    def __init__(self, ctype):
+        super().__init__()
+        c = cq()
+        self.hyps = []
+        self.fields["self.compression_type"] = IntV(z3.IntVal(ctype))
+        self.cs = self.int_field("self.cluster_size", 512, 1 << 21, self.hyps)
+        self.globals["c_qcow2"] = ObjV("c_qcow2")
+        for nm in ("QCOW2_COMPRESSION_TYPE_ZLIB", "QCOW2_COMPRESSION_TYPE_ZSTD"):
+            self.fields[f"c_qcow2.{nm}"] = IntV(z3.IntVal(int(getattr(c.c_qcow2, nm))))
+        self.BUF = fresh_bytes_("buf")
+        self.INF = fresh_bytes_("inflate_of_buf")
+        self.hyps += [self.BUF.n >= 0, self.INF.n >= 0]
+        self.globals.update({"zlib": ObjV("zlib"), "zstd": ObjV("zstd"), "BytesIO": FuncRef_("BytesIO")})
+        self.methods[("zlib", "decompressobj")] = self.zlib_obj
+        self.methods[("zlib_dctx", "decompress")] = self.zlib_decompress
+        self.methods[("zstd", "ZstdDecompressor")] = lambda eng, st, args, node: ObjV("zstd_dctx")
+        self.methods[("zstd_dctx", "stream_reader")] = self.zstd_reader
+        self.methods[("zstd_reader", "tell")] = lambda eng, st, args, node: IntV(st.ghost["rpos"])
+        self.methods[("zstd_reader", "read")] = self.zstd_read
+        self.global_calls["BytesIO"] = lambda eng, st, args, node: (eng.pre(st, z3.BoolVal(args and args[0] is self.BUF), node, tag="wraps_the_compressed_bytes"), ObjV("bytesio_of_buf"))[1]
+        self.truthy.update({"zlib_dctx": z3.BoolVal(True), "zstd_dctx": z3.BoolVal(True), "zstd_reader": z3.BoolVal(True), "bytesio_of_buf": z3.BoolVal(True)})
+
+    def zlib_obj(self, eng, st, args, node):
+        # qcow2.txt: compressed clusters are raw deflate streams with a 12-bit window: wbits == -12
+        w = eng.as_int(args[0], st, node) if args else z3.IntVal(15)
+        eng.pre(st, w == -12, node, tag="raw_deflate_window_12")
+        return ObjV("zlib_dctx")
+
+    def _produce(self, st, pos, limit, exact):
+        """A3: a streaming decompressor asked for at most `limit` bytes at output position `pos` returns the next k bytes of INF,
+        k == min(limit, rest) for zlib's decompress(data, max_length) (exact), 1 <= k <= min(limit, rest) for a reader (0 only at the end)"""
+        r = fresh_bytes_("chunk")
+        rest = self.INF.n - pos
+        if exact:
+            st.hyps.append(r.n == zmin(limit, rest))
+        else:
+            st.hyps.append(z3.And(r.n >= 0, r.n <= zmin(limit, rest), z3.Implies(z3.And(rest > 0, limit > 0), r.n >= 1)))
+        st.hyps.append(forall_k(r.n, lambda k: r.at(k) == self.INF.at(pos + k)))
+        st.ghost["alloc"] = st.ghost.get("alloc", z3.IntVal(0)) + r.n
+        return r
+
+    def zlib_decompress(self, eng, st, args, node):
+        eng.pre(st, z3.BoolVal(args[0] is self.BUF), node, tag="inflates_the_compressed_bytes")
+        if len(args) < 2:
+            eng.pre(st, z3.BoolVal(False), node, tag="max_length_given")
+            return self._produce(st, z3.IntVal(0), self.INF.n, True)
+        n = eng.as_int(args[1], st, node)
+        eng.pre(st, n >= 1, node, tag="max_length_is_positive")  # zlib: max_length 0 means "no limit"
+        return self._produce(st, z3.IntVal(0), n, True)
+
+    def zstd_reader(self, eng, st, args, node):
+        eng.pre(st, z3.BoolVal(isinstance(args[0], ObjV) and args[0].path == "bytesio_of_buf"), node, tag="reads_the_compressed_bytes")
+        st.ghost["rpos"] = z3.IntVal(0)
+        return ObjV("zstd_reader")
+
+    def zstd_read(self, eng, st, args, node):
+        n = eng.as_int(args[0], st, node) if args else z3.IntVal(-1)
+        eng.pre(st, n >= 1, node, tag="read_size_is_positive")  # read(-1) / read() return everything that is left
+        r = self._produce(st, st.ghost["rpos"], n, False)
+        st.ghost["rpos"] = st.ghost["rpos"] + r.n
+        return r
+
+
+def _decompress(ctype, label):
+    def inv(eng, st):
+        m = eng.model
+        acc, rpos = st.env["result"].joined, st.ghost["rpos"]
+        return z3.And(acc.n == rpos, rpos >= 0, rpos <= m.cs, rpos <= m.INF.n, forall_k(acc.n, lambda k: acc.at(k) == m.INF.at(k)), st.ghost["alloc"] == rpos)
+
+    def post(eng, st, rv):
+        m = eng.model
+        r = ret_bytes(rv)
+        return [("at_most_one_cluster", r.n <= m.cs), ("is_the_inflated_data_up_to_one_cluster", z3.And(r.n == zmin(m.cs, m.INF.n), forall_k(r.n, lambda k: r.at(k) == m.INF.at(k)))),
+                ("allocation_bounded_by_the_cluster", st.ghost.get("alloc", z3.IntVal(0)) <= m.cs)]
+
+    return FnContract(FILE, "QCow2._decompress", ["C01", "C11", "C13"], lambda: DecompressModel(ctype),
+                      params=lambda m: {"self": ObjV("self"), "buf": m.BUF}, requires=lambda m: m.hyps, post=post,
+                      raises={"Error": lambda eng, st: z3.BoolVal(ctype not in (0, 1))}, ghost=lambda m: {"alloc": z3.IntVal(0), "rpos": z3.IntVal(0)},
+                      loops={("While", 0): LoopSpec(inv, lambda eng, st: eng.model.cs - st.ghost["rpos"], ghost_havoc={"rpos": "int", "alloc": "int"})},
+                      shifts=r"^(chunk_len|rpos)!", case=label,
+                      note="compression type is a case parameter (zlib, zstd, anything else); cluster size and the compressed bytes symbolic; the inflation of the bytes is an "
+                           "uninterpreted byte string (A3), the contract bounds how much of it is produced (a max_length / read size of 0 or less means 'no limit')")
 
 
 def _compression(repo):
@@ -949,7 +1039,9 @@ def _yield_runs_ext(cb):
 def trusted(pid):
     import os
 
-    out = ["A3 inflate: QCow2._decompress returns the plaintext of the compressed cluster, a whole cluster for a well-formed image (callee contract of _read_compressed / Inflated(descriptor, offset))",
+    out = ["A3 zlib / zstd streaming decompressors: decompressobj(-12).decompress(data, n >= 1) returns the first min(n, len) bytes of the inflation of data; a zstd stream reader's read(n >= 1) returns "
+           "the next 1..n bytes (0 only at the end).  QCow2._decompress is proved against these (at most one cluster is produced, it is the prefix of the inflation, the limit is never 0 = unlimited); "
+           "that the inflation of a well-formed compressed cluster is the guest's cluster content is the format's definition (Inflated(descriptor, offset))",
            "A6 (well-formed image) mapped host clusters lie inside the data file; L1/L2 tables are total functions of their index (cstruct array reads, lru_cache on l2_table: A3)",
            "callee contracts used by the read path are the proved ones: index helpers (contracts/qcow2.py, incl. the nested L1 form), get_subcluster_type/range_type, count_contiguous_subclusters, _read_compressed, derived geometry of __init__"]
     if os.environ.get("VERIF_TIER_EFFECTIVE", "quick") != "thorough":
